@@ -138,6 +138,25 @@ EblifRtClauses(pre, c, out, post, ret, r) ==
     ELSE <<>>
 
 ---------------------------------------------------------------------------
+(* C16 - composing does not change the netlist and is repeatable.  Judged on the FULL logged states     *)
+(* (including the user data outside the modelled keys, logged as the strings other / emeta).             *)
+RelaxData(d) == [f \in DOMAIN d \ {"eid", "emeta"} |-> d[f]]
+RelaxEdif(js) ==      \* what the EDIF writer may legitimately touch is forgotten: library / cell order, identifiers, EDIF metadata
+    [f \in DOMAIN js \ {"lookup", "badClass"} |->
+        CASE f \in {"nlData", "libData", "defData", "portData", "cabData", "instData"} -> [x \in DOMAIN js[f] |-> RelaxData(js[f][x])]
+          [] f \in {"nlLibs", "libDefs"} -> [x \in DOMAIN js[f] |-> SeqSet(js[f][x])]
+          [] OTHER -> js[f]]
+C16_Unchanged(c, fullpre, fullpost) ==
+    c.op = "compose2" =>
+        IF c.fmt = "edif" THEN RelaxEdif(fullpost) = RelaxEdif(fullpre) ELSE fullpost = fullpre
+ComposeClauses(c, out, fullpre, fullpost, r) ==
+    IF c.op = "compose2" /\ out = "ok" THEN
+      << <<"C16_Unchanged", C16_Unchanged(c, fullpre, fullpost)>>,
+         <<"C16_Repeatable", r.hash1 = r.hash2>>,
+         <<"C16_Complete", r.complete /\ r.closed>> >>
+    ELSE <<>>
+
+---------------------------------------------------------------------------
 (* C17 - identifiers the EDIF writer assigned: legal, and distinct ignoring case among siblings.      *)
 (* idc[kind][x] = the characters of EDIF.identifier of element x after the export.                     *)
 LowerLetters == {"a","b","c","d","e","f","g","h","i","j","k","l","m","n","o","p","q","r","s","t","u","v","w","x","y","z"}
